@@ -113,6 +113,7 @@ class FormsLeg(object):
                 "transform": kind,
                 "drop": sorted(drop),
                 "falsy": draw(st.sampled_from(sorted(FALSY))),
+                "gz_crlf": draw(st.booleans()),
             }
 
         return case()
@@ -142,7 +143,8 @@ class FormsLeg(object):
         path = ctx.write("a.gff", text)
         gz = ctx.path("a.gff.gz")
         with gzip.open(gz, "wb") as fh:
-            fh.write(text.encode("utf-8"))
+            # the compressed copy may use CRLF line ends: still the same annotation
+            fh.write((text.replace("\n", "\r\n") if case.get("gz_crlf") else text).encode("utf-8"))
         dbkw = {}
         if d["style"] == "gtf":
             dbkw = dict(disable_infer_genes=True, disable_infer_transcripts=True)
@@ -185,6 +187,12 @@ class FormsLeg(object):
             else:
                 it = DataIterator(data, checklines=cl, transform=t, **extra)
             seq = [str(f) for f in it]
+            if form in ("path", "gzip", "string", "list") and t is None:
+                # a re-iterable source stays re-iterable through its DataIterator
+                seq_again = [str(f) for f in it]
+                if seq_again != seq:
+                    return Failure("form %s: a second pass over the same DataIterator yields %d features, the first %d"
+                                   % (form, len(seq_again), len(seq)), sig={"kind": "second-pass", "form": form})
             if t is not None and calls["n"] != n:
                 return Failure("form %s: transform called %d times for %d features" % (form, calls["n"], n),
                                sig={"kind": "transform-calls", "form": form})
@@ -286,6 +294,8 @@ class InspectLeg(object):
         from gffutils.feature import feature_from_line
         from gffutils.inspect import inspect
 
+        from gffutils.iterators import DataIterator
+
         d, recs = case["dialect"], case["records"]
         n = len(recs)
         lines = [tm.render_line(r, d) for r in recs]
@@ -304,6 +314,16 @@ class InspectLeg(object):
             data = gffutils.create_db(path, ":memory:", **kw)
         from gffutils.iterators import DataIterator
 
+        if form == "path" and n % 3 == 0 and n >= 2:
+            # counts are of what was iterated: features a transform dropped are not counted
+            it_t = DataIterator(path, transform=lambda f: f if f.start % 2 == 0 else None)
+            kept = [r for r in recs if int(r["cols"][3]) % 2 == 0]
+            if kept:
+                r2 = inspect(it_t, look_for=["featuretype"], verbose=False)
+                c2 = Counter(r["cols"][2] for r in kept)
+                if r2 != {"featuretype": dict(c2), "feature_count": len(kept)}:
+                    return Failure("inspect() over a DataIterator whose transform drops rows reports %r, iterated were %d features %r"
+                                   % (r2, len(kept), dict(c2)), sig={"kind": "inspect-transform"})
         through_iterator = form in ("generator", "list_iterator") and n % 2 == 0
         if through_iterator:
             data = DataIterator(data)
